@@ -418,6 +418,19 @@ Qed.
 Lemma nd_sort_resources o m : nd (sort_resources o m).
 Proof. destruct o; cbn [sort_resources]; try discriminate. apply nd_append_all. Qed.
 
+Lemma nd_remove_loop ids kept : forall cur, nd (remove_loop ids kept cur).
+Proof.
+  induction ids as [|id t IH]; intros cur; cbn [remove_loop]; [discriminate|].
+  destruct (existsb _ kept); [apply IH|]. destruct (Nat.eqb _ _); [apply IH|discriminate].
+Qed.
+
+Lemma nd_ignore_local m : nd (ignore_local m).
+Proof.
+  unfold ignore_local. destruct (negb _); [discriminate|].
+  destruct (append_all pipe_cs [] _) eqn:E; try discriminate; [apply nd_remove_loop|].
+  exfalso. revert E. apply nd_append_all.
+Qed.
+
 (* PIPE_never_diverges *)
 Theorem build_never_diverges nonstr o t : build nonstr o t <> Diverge.
 Proof.
@@ -426,6 +439,7 @@ Proof.
   apply nd_bind; [apply nd_mapM; intros; apply nd_hash_res|]. intros m1 _.
   apply nd_bind; [destruct pipe_rules_ok as [rs E]; rewrite E; discriminate|]. intros rules _.
   apply nd_bind; [apply nd_nameref_transform|]. intros m2 _.
+  apply nd_bind; [apply nd_ignore_local|]. intros m2l _.
   apply nd_bind; [apply nd_sort_resources|]. intros; discriminate.
 Qed.
 
